@@ -7,6 +7,7 @@
 import Kskm.Json
 import Kskm.Ops.Core
 import Kskm.Signer
+import Kskm.Ceremony
 open Lean
 namespace Kskm.Ops
 
@@ -222,7 +223,56 @@ structure EnvPair where
   v : String
 deriving instance FromJson, ToJson for EnvPair
 
+/-- a parse outcome sent by the harness: `{"ok": obj}` or a failure -/
+def resOfJson {α} [FromJson α] (j : Json) : Except String (Res α) :=
+  match j.getObjVal? "ok" with
+  | .ok v => do let a : α ← fromJson? v; pure (.ok a)
+  | .error _ =>
+    match j.getObjVal? "violation" with
+    | .ok v => do let r : Rule ← fromJson? v; pure (.error (.violation r))
+    | .error _ =>
+      match j.getObjVal? "error" with
+      | .ok v => do
+        let k : ErrKind := (fromJson? v : Except String ErrKind).toOption.getD .other
+        pure (.error (.error k))
+      | .error _ => pure (.error .unsupported)
+
+instance : ToJson Event where
+  toJson
+    | .display => "display"
+    | .prompt => "prompt"
+    | .write r => Json.mkObj [("write", toJson r)]
+
+def ceremonyOp : Op := fun j => do
+  let actions : Option (List SlotAction) ← optArg j "actions"
+  let prev : Option (Res Response) ← match j.getObjVal? "prev" with
+    | .ok Json.null => pure none
+    | .ok v => do pure (some (← resOfJson v))
+    | .error _ => pure none
+  let ksr : Option (Res Request) ← match j.getObjVal? "ksr" with
+    | .ok Json.null => pure none
+    | .ok v => do pure (some (← resOfJson v))
+    | .error _ => pure none
+  let hsm : List HsmCfg ← arg j "hsm"
+  let keys : List NamedKsk ← arg j "kskKeys"
+  let ext ← externalsOf j
+  let a : CeremonyArgs := {
+    actions := actions.map (fun l => l.map (fun x => (x.slot, x.action))),
+    prev, ksr,
+    hsm := hsm.map (fun h => { label := h.label, path := h.path, pin := h.pin, soPin := h.soPin }),
+    hsmName := (← optArg j "hsmName"),
+    typedPin := (j.getObjValAs? String "typedPin").toOption.getD "",
+    force := (← arg j "force"), answer := (← arg j "answer"),
+    kskKeys := keys.map (fun k => (k.name, k.key)), kskPolicy := (← arg j "kskPolicy"),
+    requestPolicy := (← arg j "requestPolicy"), responsePolicy := (← arg j "responsePolicy"),
+    now := (← arg j "now") }
+  let rec_ ← recordedLog j
+  let (r, s) := ksrsigner ext a (replayToken rec_) {}
+  pure (Json.mkObj [("result", toJson r), ("exit", toJson (exitStatus r)), ("log", logToJson s.tok.log),
+    ("events", toJson s.events.reverse)])
+
 def signerOps : List (String × Op) := [
+  ("ksrsigner", ceremonyOp),
   ("p11_init", fun j => do runTok j (← withModules j (fun mods => pure mods))),
   ("get_p11_key", fun j => do
       let label : String ← arg j "label"; let pub : Bool ← arg j "public"
